@@ -318,19 +318,43 @@ func (f *Formatter) walkChildrenArgumentList(typeDef *ast.Definition, childs ast
 			continue
 		}
 
+		if len(ch.Value.Children) > 0 && ch.Value.Definition == nil {
+			// inside a value of a custom scalar nothing is declared:
+			// variables keep the types the client declared them with
+			walkUntypedValue(ch.Value, res)
+			continue
+		}
+
 		if ch.Value.Kind == ast.Variable {
 			// child name is empty if it's an array, f.e. hello(arrArg: [$someVariable])
-			if ch.Name == "" {
+			if ch.Name == "" && ch.Value.ExpectedType != nil {
 				res[ch.Value.Raw] = ch.Value.ExpectedType.String()
 			}
 			ad := typeDef.Fields.ForName(ch.Name)
 			if ad == nil {
+				if _, ok := res[ch.Value.Raw]; !ok {
+					walkUntypedValue(ch.Value, res)
+				}
 				continue
 			}
 			res[ch.Value.Raw] = ad.Type.String()
 		}
 	}
 	return res
+}
+
+// walkUntypedValue collects the variables of a value whose members have no declared types
+// (lists and objects given for a custom scalar), with the types of the client's declarations
+func walkUntypedValue(v *ast.Value, res map[string]string) {
+	if v == nil {
+		return
+	}
+	if v.Kind == ast.Variable && v.VariableDefinition != nil && v.VariableDefinition.Type != nil {
+		res[v.Raw] = v.VariableDefinition.Type.String()
+	}
+	for _, ch := range v.Children {
+		walkUntypedValue(ch.Value, res)
+	}
 }
 
 func (f *Formatter) formatSelectionSet(sets ast.SelectionSet) {
